@@ -883,12 +883,12 @@ class Interp:
                     t["hits"].add(k.v)
                 return v.items[k.v]
             self.note("missing-key", short(node, 60) if node is not None else "", f"key {k.v!r} not in {list(v.items)[:8]}")
-            raise _Raise(f"KeyError {k.v!r}")
+            raise _Raise(f"KeyError {k.v!r}", ["KeyError", "LookupError", "Exception", "BaseException", "object"])
         if isinstance(v, (ListLit, TupS)) and isinstance(k, Const) and isinstance(k.v, int):
             try:
                 return v.elts[k.v]
             except IndexError:
-                raise _Raise("IndexError")
+                raise _Raise("IndexError", ["IndexError", "LookupError", "Exception", "BaseException", "object"])
         if isinstance(v, (ListLit, TupS)) and isinstance(k, Const) and isinstance(k.v, slice):
             try:
                 return type(v)(v.elts[k.v])
